@@ -79,7 +79,7 @@ Print Assumptions C14_enc_tags_injective.
 
 (* tie: the attribute sets and constructor signatures of /repo the model was written against (regenerated on every run) *)
 Theorem C14_pins :
-  SJSON_CLASSES = [N_Location; bs "Defect"%bs; bs "Strand"%bs; N_Feature; N_FeatureList; cls_name CAttr; cls_name CMeta; N_BioBasket; N_BioSeq] /\
+  SJSON_CLASSES = [cls_name CAttr; N_BioBasket; N_BioSeq; bs "Defect"%bs; N_Feature; N_FeatureList; N_Location; cls_name CMeta; bs "Strand"%bs] /\
   (SJSON_VARS_BioSeq = [K_data; K_meta; K_type] /\ SJSON_VARS_BioBasket = [K_data; K_meta] /\
    SJSON_VARS_FeatureList = [K_data] /\ SJSON_VARS_Feature = [K_meta; bs "_locs"%bs] /\
    SJSON_VARS_Location = [K_start; K_stop; bs "_strand"%bs; bs "_defect"%bs; bs "_meta"%bs]) /\
